@@ -100,6 +100,12 @@ func DialContext(ctx context.Context, addr, mycall, password string) (net.Conn, 
 		return nil, err
 	}
 
+	// The login must be done before the context's deadline too.
+	if deadline, ok := ctx.Deadline(); ok {
+		conn.SetDeadline(deadline)
+		defer conn.SetDeadline(time.Time{})
+	}
+
 	// Log in to telnet server
 	reader := bufio.NewReader(conn)
 L:
